@@ -17,6 +17,10 @@ CheckValue(e) ==
     \o Need(e.kind_name = KindName[e.v.k], "C19", <<"kind of value", e.v.k, e.kind_name>>)
     \o Need(TrueAt(e.typed_ok) = {want} \cap TrueAt(e.typed_exists), "C19", <<"typed conversion succeeds exactly for the matching kind", e.v.k, e.typed_ok>>)
     \o Need(e.typed_same, "C19", <<"typed conversion does not return the stored payload", e.v.k>>)
+    \* conversions into f64 / bool / String / Marker / Na / Remove answer for every value of their kind, and for no other
+    \o Need(e.monitor # "ok" \/ e.prim_ok = <<e.v.k = "num", e.v.k = "bool", e.v.k = "str", e.v.k = "marker", e.v.k = "na", e.v.k = "remove">>, "C19",
+            <<"primitive conversion succeeds exactly for the matching kind", e.v.k, e.prim_ok>>)
+    \o Need(e.prim_same, "C19", <<"primitive conversion does not return the stored payload", e.v.k>>)
     \o Need(TrueAt(e.getter_ok) = {want} \cap TrueAt(e.getter_exists), "C19", <<"typed dict getter succeeds exactly for the matching kind", e.v.k, e.getter_ok>>)
     \o Need(e.getter_same, "C19", <<"typed dict getter does not return the stored payload", e.v.k>>)
     \o Need(e.has_ok, "C19", <<"has / missing / has_marker / has_na / has_remove", e.v.k>>)
